@@ -19,6 +19,8 @@ DECIDED = [
     "R-C08-ALIGN: positional-only arguments are produced for every positional-only parameter in declaration order (no filtering that shifts "
     "later values); extras go only to **kwargs / *args",
     "R-C08-EMPTY: every convert_inputs guards the empty payload before handing it to a JSON parser (Job sends '' for argument-less jobs)",
+    "R-C08-FRESH: convert_inputs / convert_outputs of every converter are not memoised (no functools cache decorator or cache wrapper around them) and keep no "
+    "per-call state on the converter: each execution binds freshly parsed argument objects, never the (possibly mutated) objects of an earlier execution",
     "R-C08-CALL: actor.fn is called only in actor_run as fn(*args, **kwargs, **dependencies) with the converter's unmodified result; the default "
     "converter selects pydantic v2, then v1, then basic",
 ]
@@ -36,6 +38,7 @@ def run(ctx: Ctx) -> None:
     sentinel_and_align(ctx)
     empty(ctx)
     call(ctx)
+    fresh(ctx)
 
 
 def kinds(ctx: Ctx, rule="R-C08-KINDS") -> None:
@@ -296,3 +299,51 @@ def call(ctx: Ctx, rule="R-C08-CALL") -> None:
         r = flow.reach_under(g, env(v2, v1), flow.NORMAL_KINDS)
         got = sorted({dotted(n.ast.value.func) for n in rets if n.id in r and isinstance(n.ast.value, ast.Call)})
         ctx.check(got == [want], rule, d, f"default converter with pydantic v2={v2}, v1={v1}", f"-> {want}", f"DefaultConverter with pydantic v2={v2}, v1={v1} selects {got}", instance=f"default converter[{v2},{v1}]")
+
+
+CACHES = {"lru_cache", "cache", "cached", "cachedmethod", "memoize", "memoise", "alru_cache", "cached_property"}
+
+
+def _is_cache(e: ast.AST) -> bool:
+    for x in ast.walk(e):
+        d = dotted(x) if isinstance(x, (ast.Name, ast.Attribute)) else None
+        if d and d.split(".")[-1] in CACHES:
+            return True
+    return False
+
+
+def fresh(ctx: Ctx, rule="R-C08-FRESH") -> None:
+    probe = ast.parse("@lru_cache(maxsize=8)\ndef f(x): ...").body[0]
+    ctx.require(_is_cache(probe.decorator_list[0]), "cache-decorator detector does not recognise its positive example")
+    n = 0
+    for q in (BASIC, PYD, PYD1):
+        if q not in ctx.prog.classes:
+            continue
+        cls = ctx.prog.cls(q)
+        for meth in ("convert_inputs", "convert_outputs"):
+            fq = f"{q}.{meth}"
+            if fq not in ctx.prog.functions:
+                continue
+            f = ctx.func(fq)
+            n += 1
+            bad = [unparse(d) for d in f.node.decorator_list if _is_cache(d)]
+            # cls.convert_inputs = lru_cache(...)(...) / self.convert_inputs = cache(self.convert_inputs)
+            for fn in ctx.prog.iter_functions():
+                if fn.cls is not None and fn.cls.qualname == q:
+                    for a in ast.walk(fn.node):
+                        if isinstance(a, ast.Assign) and any((dotted(t) or "").endswith("." + meth) for t in a.targets) and _is_cache(a.value):
+                            bad.append(unparse(a)[:80])
+            for a in cls.node.body:
+                if isinstance(a, ast.Assign) and any(dotted(t) == meth for t in a.targets) and _is_cache(a.value):
+                    bad.append(unparse(a)[:80])
+            ctx.check(not bad, rule, f, f"{cls.name}.{meth} is not memoised", "every call parses its payload afresh",
+                      f"{cls.name}.{meth} is memoised ({bad}): two executions with an identical payload share one set of argument objects, so whatever the first "
+                      "execution did to its (mutable) arguments is what the second one receives instead of its payload entries", node=f.node, instance=f"{cls.name}.{meth}: fresh per call")
+            if meth == "convert_inputs":
+                stores = [unparse(t) for a in ast.walk(f.node) if isinstance(a, (ast.Assign, ast.AugAssign, ast.AnnAssign))
+                          for t in (a.targets if isinstance(a, ast.Assign) else [a.target]) if (dotted(t) or unparse(t)).startswith("self.")]
+                glob = [x for x in ast.walk(f.node) if isinstance(x, (ast.Global, ast.Nonlocal))]
+                ctx.check(not stores and not glob, rule, f, f"{cls.name}.convert_inputs keeps no state between calls", "no store to the converter or to globals",
+                          f"{cls.name}.convert_inputs stores to {stores or 'globals'}: state carried from one execution's arguments into the next", node=f.node,
+                          instance=f"{cls.name}.convert_inputs: stateless")
+    ctx.floor(rule, n, 4, "converter methods")
